@@ -11,7 +11,8 @@ type Unit struct {
 	// PES
 	PES    *PESHeader `json:"pes,omitempty"`
 	Len    int        `json:"len,omitempty"`
-	Biased bool       `json:"biased,omitempty"` // payload made of 00 00 01 Ex patterns at 184-byte strides
+	Biased bool       `json:"biased,omitempty"`  // payload made of 00 00 01 Ex patterns at 184-byte strides
+	BiasXY bool       `json:"bias_xy,omitempty"` // with Biased: the pattern is 02 04 01 Ex (looks like a start code only to a sloppy test)
 	// PSI
 	Pointer  int       `json:"pointer,omitempty"`
 	Sections []Section `json:"sections,omitempty"`
@@ -73,8 +74,16 @@ func (u *Unit) UnitPayload() []byte {
 		hdr := len(EncodePES(u.PES, nil))
 		for i := range b {
 			switch (i + hdr) % 184 {
-			case 0, 1:
+			case 0:
 				b[i] = 0
+				if u.BiasXY {
+					b[i] = 0x02
+				}
+			case 1:
+				b[i] = 0
+				if u.BiasXY {
+					b[i] = 0x04
+				}
 			case 2:
 				b[i] = 1
 			case 3:
